@@ -42,7 +42,7 @@ def _build(rng):
     defines = {}
     for i in range(nd):
         defines[f"d_{'abc'[i]}"] = rng.choice([0, 1, 5, 0x10, 0x1F, 0xFF, 0xAB, 0x1234, 0x12AB, 0xC0DE, 0x12345, 0xFEDCBA])
-    prof = progen.Profile(max_stmts=12, reloc_ram=False, big_incbin=rng.random() < 0.25, defines=defines, org_weight=8)
+    prof = progen.Profile(max_stmts=12, reloc_ram=False, big_incbin=rng.random() < 0.25, defines=defines, org_weight=8, includes=rng.random() < 0.4)
     case = progen.generate(rng, prof, rom=rom)
     case["defines"] = defines
     case["define_forms"] = [rng.choice(["d", "x", "X", "b", "d", "x", "z", "zx"]) for _ in defines]  # decimal, 0x lower / UPPER-case digits, 0b, zero-padded
